@@ -315,6 +315,8 @@ def showMEff : MEff → String
   | .sent b => "sent:" ++ Hex.ofStr b
   | .enqueuePill => "enq:" ++ Hex.ofStr stopPill
   | .sockClose => "sockclose"
+  | .ioHandler => "iohandler"
+  | .exit => "exit"
 
 def parseMOp (ts : List String) : Option MOp :=
   match ts with
@@ -324,6 +326,8 @@ def parseMOp (ts : List String) : Option MOp :=
   | ["put"] => some .put
   | ["get"] => some .get
   | ["send"] => some .send
+  | ["eoi"] => some .endOfInput
+  | ["sendfail"] => some .sendFail
   | ["join"] => some .join
   | ["poolwait"] => some .poolWait
   | ["start"] => some .taskStart
@@ -362,6 +366,13 @@ def stepState (ds : DriverState) (line : String) : DriverState × String :=
     match n.toNat? with
     | some k =>
       let cfg : SrvCfg := { kind := .metaK, excHandler := hb exh, ioHandler := none, keepAlive := some 0 }
+      ({ ds with metaS := some { cfg := cfg, pool := { n := k }, rst := { keepAlive := (0, 0) } } }, "ok")
+    | none => (ds, "bad-op")
+  | ["cosim", "meta", n, exh, ioh] =>
+    let hb (t : String) : Option Bool := if t = "t" then some true else if t = "f" then some false else none
+    match n.toNat? with
+    | some k =>
+      let cfg : SrvCfg := { kind := .metaK, excHandler := hb exh, ioHandler := hb ioh, keepAlive := some 0 }
       ({ ds with metaS := some { cfg := cfg, pool := { n := k }, rst := { keepAlive := (0, 0) } } }, "ok")
     | none => (ds, "bad-op")
   | "km" :: rest =>
